@@ -55,6 +55,16 @@ class FakeStatus:
     def success(self):
         return True
 
+    # generated plans compare what they are sent with small ints: the object stands for the script's integer k
+    def __eq__(self, other):
+        return self.k == other if isinstance(other, int) else self is other
+
+    def __ne__(self, other):
+        return not self.__eq__(other)
+
+    def __hash__(self):
+        return id(self)
+
 
 class Susp:
     def __init__(self, idx):
@@ -229,8 +239,8 @@ def resp(k, ctx=None):
         return None
     if k >= 50:
         return FakeStatus(k)
-    if ctx is not None and ctx.lists is not None:
-        return [ctx.devs[i] for i in ctx.lists[k]]
+    if ctx is not None and ctx.lists is not None and getattr(ctx, "stage_out", False):
+        return [ctx.devs[i] for i in ctx.lists[k]]      # the answer to the wrapper's own stage message: a device list
     return k
 
 
@@ -259,7 +269,9 @@ def step(ctx, gen, inp):
         return ["r", canon_val(e.value, ctx)], False
     except BaseException as e:  # noqa: BLE001
         return ["e", exc_name(e)], False
-    return ["y"] + ctx.observe(m), True
+    o = ctx.observe(m)
+    ctx.stage_out = (o[0] == "v" and o[1][0] == "stage")
+    return ["y"] + o, True
 
 
 def run_script(case, build, script):
